@@ -339,7 +339,8 @@ def gen_params(rng, ctx_thorough, big=False):
                 fmt=rng.choice(['csr', 'csr', 'coo', 'csc']),
                 gkind=rng.choice(['negdef', 'negdef', 'indef', 'semidef']),
                 target=(10 ** rng.uniform(0.08, 2)) if rng.random() < 0.85 else (10 ** rng.uniform(-1.5, -0.05)),
-                scale=rng.choice([0.25, 0.5, 0.8, 2.0, 3.0]))
+                scale=rng.choice([0.25, 0.5, 0.8, 2.0, 3.0]),
+                kkind=('chain' if rng.random() < 0.2 else 'random'))
 
 
 def build_random(p):
@@ -349,6 +350,9 @@ def build_random(p):
     m = len(act)
     banded = m > 80
     Ka = rand_spd(rs, m, banded)
+    if p.get('kkind') == 'chain' and m >= 3:
+        # spring chain k*tridiag(-1, 2, -1): positive definite although every interior column sums EXACTLY to zero
+        Ka = float(rs.choice([1., 4., 1000.])) * (2 * np.eye(m) - np.eye(m, k=1) - np.eye(m, k=-1))
     Ga = rand_sym(rs, m, banded, p['gkind'])
     mu = scipy.linalg.eigh(Ga, Ka, eigvals_only=True)
     neg = mu[mu < -1e-12 * max(1e-300, np.abs(mu).max())]
